@@ -152,6 +152,8 @@ func (s *SuffrageStateBuilder) buildBatch(
 				return err
 			case !found:
 				return util.ErrNotFound.Errorf("suffrage proof not found, %d", height)
+			case proof.SuffrageHeight() != height:
+				return errors.Errorf("wrong suffrage height of proof, %d != %d", proof.SuffrageHeight(), height)
 			}
 
 			return func() error {
